@@ -71,6 +71,8 @@ PROPS = {
                 assumptions=["the expected view of the other version comes from the R-PER decoder run with the other version's schema"]),
     "C04": dict(ZOO, level="fault_enumeration", variants={"quick": ["checked"], "thorough": ["checked", "wrapping"]}, shards={"quick": 16, "thorough": 16},
                 assumptions=["allocation bound: largest request and peak live bytes <= 64 MiB + 4096 x input octets", "'never hangs' = every batch finishes within the watchdog; a firing watchdog is repeated in isolation before it counts"]),
+    "C09": dict(engine="c09", level="exploration", variants={"quick": ["checked"], "thorough": ["checked"]}, shards={"quick": 16, "thorough": 16},
+                assumptions=["rustc's verdict (cargo check, edition 2021) is the oracle", "a module the front end rejects with Err satisfies the property; panics of the front end are judged by C14"]),
     "C17": dict(ZOO, level="exploration", variants={"quick": ["checked"], "thorough": ["checked", "wrapping"]}, shards={"quick": 16, "thorough": 16},
                 assumptions=["protobuf equality is judged on abstract values: identical except that an absent OPTIONAL equals a present value that is the Rust Default of its type"]),
     "C18": dict(ZOO, level="exploration", variants={"quick": ["checked"], "thorough": ["checked"]}, shards={"quick": 16, "thorough": 16},
@@ -346,7 +348,150 @@ def c19_compare(cfg, tier, merged, problems):
     merged["floor"]["c19:table-lines-compared"] = compared
 
 
-ENGINES = {"primmon": engine_primmon, "frontmon": engine_frontmon, "zoo": engine_zoo}
+def engine_c09(prop, cfg, tier, seed, merged):
+    """generate the compile families, run cargo check over them, attribute every rustc error to its module"""
+    import re
+    problems = []
+    ok, zoogen, out = cargo_build("zoogen", "checked")
+    if not ok:
+        return ["build of zoogen failed: %s" % out[-600:].replace("\n", " | ")]
+    zoo = os.path.join(WORK, "zoo-c09-%s-%d" % (tier, seed))
+    target_dir = os.path.join(WORK, "target-zoo-c09")
+    exclude, errors = [], {}
+    groups = []
+    converged = False
+    for attempt in range(10):
+        cmd = [zoogen, "--tier", tier, "--seed", str(seed), "--out", zoo, "--shards", "16", "--families", "c09kw,c09col,c09const,c09rand", "--compile-only"]
+        if exclude:
+            cmd += ["--exclude", ",".join(exclude)]
+        rc, out, dt = run(cmd, cwd=VERIF, timeout=1800)
+        if rc != 0:
+            return ["zoogen failed: %s" % out[-600:].replace("\n", " | ")]
+        with open(os.path.join(zoo, "groups.json")) as fh:
+            groups = json.load(fh)
+        rc, out, dt = run(["cargo", "check", "--offline", "--keep-going", "--profile", "checked", "--target-dir", target_dir, "--message-format=json"], cwd=zoo, timeout=7200)
+        log("[c09] cargo check attempt %d rc=%d %.1fs" % (attempt, rc, dt))
+        new = []
+        unattributed = []
+        for line in out.splitlines():
+            if not line.startswith("{"):
+                continue
+            try:
+                m = json.loads(line)
+            except ValueError:
+                continue
+            if m.get("reason") != "compiler-message" or m["message"].get("level") != "error":
+                continue
+            msg = m["message"]
+            if msg["message"].startswith("aborting due to") or msg["message"].startswith("could not compile"):
+                continue
+            grp, snippet = None, ""
+
+            def walk(span):
+                nonlocal grp, snippet
+                while span is not None:
+                    mm = re.search(r"shard_\d+/src/((?:g|c)_\d+)/", span.get("file_name", ""))
+                    if mm and grp is None:
+                        grp = mm.group(1)
+                        snippet = " | ".join(t.get("text", "") for t in span.get("text", []))[:300]
+                    exp = span.get("expansion")
+                    span = exp.get("span") if exp else None
+            for sp in sorted(msg.get("spans", []), key=lambda x: not x.get("is_primary")):
+                walk(sp)
+            if grp is None:
+                unattributed.append(msg["message"][:200])
+                continue
+            code = (msg.get("code") or {}).get("code") or "no-code"
+            errors.setdefault(grp, []).append({"code": code, "message": msg["message"][:400], "rendered": (msg.get("rendered") or "")[:900], "source": snippet})
+            if grp not in exclude and grp not in new:
+                new.append(grp)
+        if rc == 0:
+            converged = True
+            break
+        if not new:
+            problems.append("C09: cargo check fails without an attributable module: %s" % " | ".join(unattributed[:3] or [out[-400:].replace("\n", " | ")]))
+            break
+        exclude += new
+    if not converged and not problems:
+        problems.append("C09: cargo check did not converge within 10 rounds of exclusion")
+    # verdicts per group
+    merged["rule"] = ("every generated module (Rust keywords x 8 identifier positions, identifiers that meet after mangling, names of the prelude / of generated items / of methods, "
+                      "value references and DEFAULTs of every literal kind with boundary and awkward literals, random modules from the full front-end grammar with the hostile identifier pool; "
+                      "through the Converter and through asn_to_rust!) that the real front end accepts is compiled by rustc (cargo check --keep-going) inside a crate that depends on /repo; "
+                      "modules with errors are excluded and the check repeated until the rest compiles, so that every failing module is seen. "
+                      "A front-end Err is fine, a rustc error is a violation. distinct = modules that were accepted and compiled")
+    merged["exhaustive"] = False
+
+    def norm(msg):
+        msg = re.sub(r"`[^`]*`", "`_`", msg)
+        msg = re.sub(r"\d+", "N", msg)
+        return msg[:110]
+    for g in groups:
+        merged["evaluations"] += 1
+        merged["variants"]["checked"] = merged["variants"].get("checked", 0) + 1
+        fam = g["family"]
+        h = merged["hist"].setdefault("outcomes", {})
+        note = g.get("note") or {}
+        if note.get("construct"):
+            c = merged["hist"].setdefault("constructs", {})
+            c[note["construct"].split(":")[0]] = c.get(note["construct"].split(":")[0], 0) + 1
+        if "rejected" in g:
+            k = "%s:rejected-by-front-end" % fam
+            h[k] = h.get(k, 0) + 1
+            if "panicked" in g["rejected"]:
+                hh = merged["hist"].setdefault("front-end-panics(judged-by-C14)", {})
+                hh[g["rejected"][:80]] = hh.get(g["rejected"][:80], 0) + 1
+            continue
+        name = g["group"]
+        if name in errors:
+            k = "%s:rustc-error" % fam
+            h[k] = h.get(k, 0) + 1
+            construct = note.get("construct", "random-module")
+            # root-cause classes of recorded findings; an error outside these classes takes precedence, so that a
+            # new defect in a module that also shows a recorded one is still reported under its own message
+            def klass(e):
+                m = e["message"]
+                if "cannot apply unary operator `-` to type `u" in m:
+                    return "negative-literal-for-unsigned-type"
+                if "BitVec" in m and ("ToOwned" in m or "compare" in m):
+                    return "bit-string-default"
+                r = e.get("rendered", "")
+                if "mismatched types" in m and ("expected `u64`, found `[{integer}" in r or "expected `&u64`, found `&[{integer}" in r):
+                    return "bit-string-default"  # BIT STRING value reference / DEFAULT given as hstring or bstring
+                if "is defined multiple times" in m or "duplicate definitions with name" in m:
+                    return "names-meet-after-mangling"
+                if "expected identifier, found keyword `Self`" in m:
+                    return "identifier-Self"
+                return None
+            classified = [(klass(e), e) for e in errors[name]]
+            unknown = [e for k, e in classified if k is None]
+            if fam == "c09rand":
+                first = unknown[0] if unknown else classified[0][1]
+                sig = "c09:rustc:random-module:%s" % (("%s:%s" % (first["code"], norm(first["message"]))) if unknown else classified[0][0])
+            else:
+                first = errors[name][0]
+                k = klass(first)
+                sig = "c09:rustc:%s:%s" % (construct, k if k else "%s:%s" % (first["code"], norm(first["message"])))
+            e = merged["violations"].setdefault(sig, {"count": 0, "witnesses": [], "class": None, "variants": set()})
+            e["count"] += 1
+            e["variants"].add("checked")
+            if len(e["witnesses"]) < 3:
+                e["witnesses"].append({"variant": "checked", "witness": {"group": name, "family": fam, "construct": note.get("construct"), "identifier": note.get("identifier"), "inline_macro": g.get("inline_macro"),
+                                                                         "asn1": g.get("asn1"), "errors": errors[name][:4]}})
+        else:
+            k = "%s:compiled" % fam
+            h[k] = h.get(k, 0) + 1
+            merged["distinct"].add(hash((name, tuple(g.get("asn1") or []))) & 0xFFFFFFFFFFFF)
+            merged["floor"]["compiled:%s" % fam] = merged["floor"].get("compiled:%s" % fam, 0) + 1
+    for fam in ("c09kw", "c09col", "c09pre", "c09const", "c09rand"):
+        merged["floor"].setdefault("compiled:%s" % fam, 0)
+    for g in groups[:400:57]:
+        if "rejected" not in g and len(merged["samples"]) < 8:
+            merged["samples"].append({"group": g["group"], "family": g["family"], "note": g.get("note"), "asn1": (g.get("asn1") or [""])[0][:400]})
+    return problems
+
+
+ENGINES = {"primmon": engine_primmon, "frontmon": engine_frontmon, "zoo": engine_zoo, "c09": engine_c09}
 
 # ------------------------------------------------------------------------------------------------
 # verdict
